@@ -155,4 +155,112 @@ theorem now_at (tr : Nat → List (Trans Int)) (P : Int) (s n : Nat)
   rw [← stampAt_int]
   exact (Option.some.inj h2).symm
 
+/-! ## the machine over an arbitrary decision function (conditional auxiliaries) -/
+
+section generalMachine
+variable {τ : Type} [Sub τ] [LE τ] [LT τ] [DecidableLE τ] [DecidableLT τ] [OfNat τ 0] {σ : Type}
+
+theorem segueG_cases (d : τ → σ → St τ → Option Nat × σ) (now : τ) (s : St τ) (x : σ) :
+    (∃ far x', d now x (evalState now s) = (some far, x') ∧
+      segueG d now s x = (⟨now, some (now - s.stamp), some (s.recurred + 1), true, enter now far⟩, x')) ∨
+    (∃ x', d now x (evalState now s) = (none, x') ∧
+      segueG d now s x = (⟨now, some (now - s.stamp), some (s.recurred + 1), false, evalState now s⟩, x')) := by
+  cases h : d now x (evalState now s) with
+  | mk dec x' =>
+    cases dec with
+    | some far => left; refine ⟨far, x', rfl, ?_⟩; simp only [segueG]; unfold evalState at h; rw [h]
+    | none => right; refine ⟨x', rfl, ?_⟩; simp only [segueG]; unfold evalState at h; rw [h]; rfl
+
+theorem segueG_now (d : τ → σ → St τ → Option Nat × σ) (now : τ) (s : St τ) (x : σ) :
+    (segueG d now s x).1.now = now := by
+  rcases segueG_cases d now s x with ⟨_, _, _, h⟩ | ⟨_, _, h⟩ <;> rw [h]
+
+theorem segueG_eval (d : τ → σ → St τ → Option Nat × σ) (now : τ) (s : St τ) (x : σ) :
+    (segueG d now s x).1.evalElapsed = some (now - s.stamp) ∧
+    (segueG d now s x).1.evalRecurred = some (s.recurred + 1) := by
+  rcases segueG_cases d now s x with ⟨_, _, _, h⟩ | ⟨_, _, h⟩ <;> rw [h] <;> exact ⟨rfl, rfl⟩
+
+theorem segueG_stay (d : τ → σ → St τ → Option Nat × σ) (now : τ) (s : St τ) (x : σ)
+    (h : (segueG d now s x).1.entered = false) :
+    (segueG d now s x).1.after.stamp = s.stamp ∧ (segueG d now s x).1.after.recurred = s.recurred + 1 ∧
+    (segueG d now s x).1.after.active = s.active ∧ (segueG d now s x).1.after.elapsed = now - s.stamp := by
+  rcases segueG_cases d now s x with ⟨_, _, _, h'⟩ | ⟨_, _, h'⟩
+  · rw [h'] at h; cases h
+  · rw [h']; exact ⟨rfl, rfl, rfl, rfl⟩
+
+theorem segueG_enter (d : τ → σ → St τ → Option Nat × σ) (now : τ) (s : St τ) (x : σ)
+    (h : (segueG d now s x).1.entered = true) :
+    (segueG d now s x).1.after.stamp = now ∧ (segueG d now s x).1.after.recurred = 0 := by
+  rcases segueG_cases d now s x with ⟨_, _, _, h'⟩ | ⟨_, _, h'⟩
+  · rw [h']; exact ⟨rfl, rfl⟩
+  · rw [h'] at h; cases h
+
+theorem runFromG_split (d : τ → σ → St τ → Option Nat × σ) :
+    ∀ (pre : List (Obs τ)) (s : St τ) (x : σ) (nows : List τ) (o : Obs τ) (rest : List (Obs τ)),
+    runFromG d s x nows = pre ++ o :: rest →
+    ∃ s' x' now nows', o = (segueG d now s' x').1 ∧ rest = runFromG d o.after (segueG d now s' x').2 nows' := by
+  intro pre
+  induction pre with
+  | nil =>
+    intro s x nows o rest h
+    cases nows with
+    | nil => simp [runFromG] at h
+    | cons now nows' =>
+      simp only [runFromG, List.nil_append, List.cons.injEq] at h
+      exact ⟨s, x, now, nows', h.1.symm, by rw [← h.2, h.1]⟩
+  | cons p pre ih =>
+    intro s x nows o rest h
+    cases nows with
+    | nil => simp [runFromG] at h
+    | cons now nows' =>
+      simp only [runFromG, List.cons_append, List.cons.injEq] at h
+      exact ih _ _ _ _ _ h.2
+
+theorem runFromG_segment (d : τ → σ → St τ → Option Nat × σ) :
+    ∀ (mid : List (Obs τ)) (s : St τ) (x : σ) (nows : List τ) (o : Obs τ) (post : List (Obs τ)),
+    runFromG d s x nows = mid ++ o :: post → (∀ m ∈ mid, m.entered = false) →
+    o.evalElapsed = some (o.now - s.stamp) ∧ o.evalRecurred = some (s.recurred + mid.length + 1) := by
+  intro mid
+  induction mid with
+  | nil =>
+    intro s x nows o post h _
+    cases nows with
+    | nil => simp [runFromG] at h
+    | cons now nows' =>
+      simp only [runFromG, List.nil_append, List.cons.injEq] at h
+      have ho := h.1.symm
+      subst ho
+      have := segueG_eval d now s x
+      rw [segueG_now]
+      exact ⟨this.1, by simpa using this.2⟩
+  | cons m mid ih =>
+    intro s x nows o post h hm
+    cases nows with
+    | nil => simp [runFromG] at h
+    | cons now nows' =>
+      simp only [runFromG, List.cons_append, List.cons.injEq] at h
+      have hm0 : (segueG d now s x).1.entered = false := by
+        rw [h.1]; exact hm m List.mem_cons_self
+      obtain ⟨h1, h2, _, _⟩ := segueG_stay d now s x hm0
+      have := ih _ _ _ _ _ h.2 (fun y hy => hm y (List.mem_cons_of_mem _ hy))
+      rw [h1, h2] at this
+      refine ⟨this.1, ?_⟩
+      rw [this.2]; simp only [List.length_cons]; congr 1; omega
+
+/-- the machine of the first part is the instance without extra state -/
+theorem runFromG_decideT (tr : Nat → List (Trans τ)) (s : St τ) (nows : List τ) :
+    runFromG (decideT tr) s () nows = runFrom tr s nows := by
+  induction nows generalizing s with
+  | nil => rfl
+  | cons now rest ih =>
+    have h : (segueG (decideT tr) now s ()).1 = segue tr now s := by
+      rcases segue_cases tr now s with ⟨t, ht, hs⟩ | ⟨ht, hs⟩
+      · rw [hs]; unfold evalState at ht; simp [segueG, decideT, ht]
+      · rw [hs]; unfold evalState at ht; simp [segueG, decideT, ht, evalState]
+    simp only [runFromG, runFrom, h]
+    have h2 : (segueG (decideT tr) now s ()).2 = () := rfl
+    rw [h2, ih]
+
+end generalMachine
+
 end Ioflo.FloClock
